@@ -48,4 +48,13 @@ theorem C13_hook_callers :
       ((allocSites.filter fun s => ["_cbor_malloc", "_cbor_realloc", "_cbor_free"].contains s.2.1).map (·.1)).eraseDups := by
   decide +kernel
 
+/-- **No bypass through a pointer either.**  The only function that makes calls through function pointers other than the allocator hooks is
+the streaming decoder (its client callbacks); and the only functions whose *address* is taken anywhere in a function body are the library's own
+callbacks (the builder callbacks installed by `cbor_load`): no C-library heap function is ever named without being called — which `C13_no_libc_heap_call`
+excludes — so none can be reached through a pointer. -/
+theorem C13_no_indirect_bypass :
+    ((List.range nDefined).filter fun i => (calleesOf i).contains indirect).map nameOf = ["cbor_stream_decode"] ∧
+    fnRefs.all (fun r => !libcHeap.contains r.2 && (names.take nDefined).contains r.2) = true := by
+  decide +kernel
+
 end Props.C13
